@@ -147,4 +147,35 @@ example : ∃ pre rest ts2 pre2 e2, expand ex2Toks = pre ++ rest ∧ cur rest = 
     Lex.lexAll (sqlT ex2Tree) = .ok ts2 ∧ expand ts2 = pre2 ++ [e2] ∧ tk e2.kind = .eof ∧
     Reads (yieldT ex2Tree) pre ∧ Reads (yieldT ex2Tree) pre2 := type_lossless ex2_lex ex2_parse
 
+/-! ## the repaired inputs: named types whose first path component spells a scalar type print as they were written
+and the printed text re-parses to the same tree (before the repair of `lookaheadSimpleType` the tree could not even be
+obtained; a hand-built one printed `date.t`, which was rejected) -/
+
+open MF.Props.C05 (ex3Buf ex3Toks ex3Tree ex3_lex ex3_parse bqnBuf bqnToks bqnTree bqn_lex bqn_parse)
+
+example : sqlT ex3Tree = ex3Buf := by decide
+theorem ex3_rt : rtOK ex3Tree = true := by rfl
+
+example : ∃ ts2 t', Lex.lexAll (sqlT ex3Tree) = .ok ts2 ∧ parseTypeTop (topFuel ts2) ts2 = .ok t' ∧
+    eraseT t' = eraseT ex3Tree ∧ sqlT t' = sqlT ex3Tree := type_roundtrip ex3_lex ex3_parse
+
+/-- `` `date`.x `` prints WITHOUT the back quotes (`date` is not a keyword) as `date.x`, which re-parses to the same
+named type: with the repaired look-ahead the quoting of the first component is invisible, as everywhere else -/
+example : sqlT bqnTree = B "date.x" := by decide
+example : ∃ ts2 t', Lex.lexAll (sqlT bqnTree) = .ok ts2 ∧ parseTypeTop (topFuel ts2) ts2 = .ok t' ∧
+    eraseT t' = eraseT bqnTree ∧ sqlT t' = sqlT bqnTree := type_roundtrip bqn_lex bqn_parse
+
+/-- hand-built trees too: `ARRAY<string.x>` and `string.x.y` (positions arbitrary) -/
+example : ∃ ts2 t', Lex.lexAll (sqlT (.array 0 0 (.named [⟨0, 0, B "string"⟩, ⟨0, 0, B "x"⟩]))) = .ok ts2 ∧
+    parseTypeTop (topFuel ts2) ts2 = .ok t' ∧
+    eraseT t' = eraseT (.array 0 0 (.named [⟨0, 0, B "string"⟩, ⟨0, 0, B "x"⟩])) ∧
+    sqlT t' = sqlT (.array 0 0 (.named [⟨0, 0, B "string"⟩, ⟨0, 0, B "x"⟩])) :=
+  type_roundtrip_tree (by decide) (by decide +kernel)
+
+example : ∃ ts2 t', Lex.lexAll (sqlT (.named [⟨0, 0, B "string"⟩, ⟨0, 0, B "x"⟩, ⟨0, 0, B "y"⟩])) = .ok ts2 ∧
+    parseTypeTop (topFuel ts2) ts2 = .ok t' ∧
+    eraseT t' = eraseT (.named [⟨0, 0, B "string"⟩, ⟨0, 0, B "x"⟩, ⟨0, 0, B "y"⟩]) ∧
+    sqlT t' = sqlT (.named [⟨0, 0, B "string"⟩, ⟨0, 0, B "x"⟩, ⟨0, 0, B "y"⟩]) :=
+  type_roundtrip_tree (by decide) (by decide +kernel)
+
 end MF.Props.C01
